@@ -282,6 +282,8 @@ def create_request(c):
                                       "frag_len": 0, "auth_len": auth_len, "call_id": 1})
     req = SObj(cls(c, "Request"), {"header": hdr, "sec_trailer": st, "alloc_hint": c.len(stub2), "context_id": ctx_id, "opnum": opnum, "obj": None, "stub_data": stub2})
     c.returns((req, offsets))
+    if not c.verifying:
+        c.effect(lambda: c.ctx.event("create_request", client=self_, context_id=ctx_id, opnum=opnum, stub=stub, verification_trailer=vt, pdu=req, offsets=offsets))
     if c.verifying:
         # consequences the property names explicitly (implied by the equality above; kept as separate obligations)
         def aligned(r):
@@ -672,6 +674,17 @@ def _send_pdu_contract(flavour):
         if not c.verifying:
             if c.ctx.ghost.get("hs") is not None:
                 return bind_send_monitor(c, c.param("pdu"), c.param("resp_type").cls.name)
+            if c.ctx.ghost.get("request_under_verification"):
+                # summary for request(): some reply of the requested type, or one of the errors proved above (C14, C16)
+                from .c_rpc import reply_object
+
+                pdu, rt, offs, cl = c.param("pdu"), c.param("resp_type"), c.param("encrypt_offsets"), c.param("self")
+                for e in ("ConnectionError" if flavour == "sync" else "asyncio.IncompleteReadError", "ValueError", "KeyError", "IndexError", "spnego.exceptions.SpnegoError"):
+                    c.raises(e, when=None)
+                reply = reply_object(c, rt.cls.name)
+                c.effect(lambda: c.ctx.event("send_pdu", client=cl, pdu=pdu, resp_type=rt.cls.name, encrypt_offsets=offs, reply=reply))
+                c.returns(reply)
+                return
             c.inline_instead()
         self_ = c.param("self", sync_client() if flavour == "sync" else async_client())
         pdu = SObj(cls(c, "Request"), {})
@@ -948,6 +961,37 @@ def process_bind_result(c):
     c.post("returns-only-if-the-desired-context-was-accepted", lambda: accepted)
 
 
+def _request_contract(flavour):
+    def spec(c):
+        if not c.verifying:
+            return _request_summary(c)
+        self_ = c.param("self", sync_client() if flavour == "sync" else async_client())
+        ctx_id, opnum = c.param("context_id", U16), c.param("opnum", U16)
+        stub = c.param("stub_data", T.bytes(max_len=60000))
+        vt, _ = abstract_vt(c, "verification_trailer")
+        c.param("verification_trailer", T.const(vt))
+        c.ctx.ghost["request_under_verification"] = True
+        eof = "ConnectionError" if flavour == "sync" else "asyncio.IncompleteReadError"
+        errs = {eof, "ValueError", "KeyError", "IndexError", "spnego.exceptions.SpnegoError"}
+        for e in sorted(errs):
+            c.raises(e, when=None)
+        c.raises_only(errs)
+
+        def ok(r):
+            cr = [d for k, d in c.ctx.trace if k == "create_request"]
+            sp = [d for k, d in c.ctx.trace if k == "send_pdu"]
+            if len(cr) != 1 or len(sp) != 1:
+                return False
+            a, b = cr[0], sp[0]
+            return [a["client"] is self_, c.eq(a["context_id"], ctx_id), c.eq(a["opnum"], opnum), c.eq(a["stub"], stub), a["verification_trailer"] is vt,
+                    b["client"] is self_, b["pdu"] is a["pdu"], b["resp_type"] == "Response", (b["encrypt_offsets"] is a["offsets"]) or c.eq(b["encrypt_offsets"], a["offsets"]),
+                    r is b["reply"]]
+
+        c.ensures("one-request-built-from-the-arguments-sent-once-reply-returned", ok)
+
+    return spec
+
+
 def _request_summary(c):
     """request() = _create_request (C13) + _send_pdu (C14, C16): for the conversation contracts a Response or an error"""
     cl = c.param("self")
@@ -963,5 +1007,5 @@ def _request_summary(c):
     c.returns(resp)
 
 
-REG.contract("dpapi_ng._rpc._client.SyncRpcClient.request", props=[], assumed=True, note="composition of _create_request (C13) and _send_pdu (C14/C16); used as a summary by C17")(_request_summary)
-REG.contract("dpapi_ng._rpc._client.AsyncRpcClient.request", props=[], assumed=True, note="composition of _create_request (C13) and _send_pdu (C14/C16); used as a summary by C17")(_request_summary)
+REG.contract("dpapi_ng._rpc._client.SyncRpcClient.request", props=["C17", "C13"], note="composition of _create_request (C13) and _send_pdu (C14/C16); its summary is used by C17")(_request_contract("sync"))
+REG.contract("dpapi_ng._rpc._client.AsyncRpcClient.request", props=["C17", "C13"], note="composition of _create_request (C13) and _send_pdu (C14/C16); its summary is used by C17")(_request_contract("async"))
